@@ -5,6 +5,7 @@ import (
 	"fmt"
 	"strings"
 	"testing"
+	"unicode/utf8"
 
 	"github.com/hyperjumptech/grule-rule-engine/ast"
 	"github.com/hyperjumptech/grule-rule-engine/builder"
@@ -101,7 +102,7 @@ func (c *c18Conv) operand(e gast.Expr) interface{} {
 			if strings.ContainsAny(x.S, "\"\\\n\t'") || !isASCII(x.S) {
 				c.hasEscape = true
 			}
-			if rapid.Bool().Draw(c.rt, "str_const") {
+			if utf8.ValidString(x.S) && rapid.Bool().Draw(c.rt, "str_const") {
 				c.features["const_string"]++
 				return map[string]interface{}{"const": x.S}
 			}
